@@ -3,16 +3,17 @@ import ShVerif.Gen.C10
 /-
   C10 — parse errors are well-formed and incompleteness is reported.
 
-  Proved here (about the model of posErr / Parser.Incomplete / doHeredocs / Parser.next that the
-  harness ties to the parser, and about tables regenerated from the source on every run):
+  Proved here (about the model of posErr / Parser.Incomplete / doHeredocs / Parser.next /
+  postNested that the harness ties to the parser, and about tables regenerated from the source on
+  every run):
    * the decision: an error is Incomplete iff it is raised at EOF while a statement/word bracket is
      open or a literal is being collected;
-   * here-document bodies: every cut inside a body read from within a statement is Incomplete, for
-     all delimiter forms; bodies with their stop line close;
-   * scheduling: the newline ending the `<<` line reads the bodies iff it is lexed outside every
-     preNested region entered after the `<<` — otherwise (`[[ … ]]`, `let …` at the end of the line)
-     a cut right after that line is reported as a hard error: the full statement is FALSE of the
-     model and of the code (counter-example theorems; known finding C10-heredoc-buried-newline);
+   * here-document bodies: every cut inside a body is Incomplete, for all delimiter forms and
+     whoever calls doHeredocs (it brackets itself since a243c26); bodies with their stop line close;
+   * scheduling: the bodies are read at the newline ending the `<<` line or, when that newline was
+     lexed inside a preNested region (`[[ … ]]`, `let …`), at the postNested that follows it; every
+     cut after a line with a pending here-document is Incomplete (`heredoc_cut_incomplete`, the
+     full statement, which was refuted before a243c26);
    * error_sites: every call that creates a ParseError/LangError takes its position from the
      token position, `nextPos()`, a node's Pos()/End(), a Pos field of a node, or a parameter that
      every caller fills in the same way.
@@ -48,10 +49,9 @@ theorem toplevel_eof_not_incomplete : (inBrackets .eof 0 0).errIncomplete = fals
 
 /-! ### one here-document body -/
 
-/-- Every prefix of a here-document body that does not contain the stop line, read from inside a
-    statement (or any other open bracket), is reported as an *incomplete* error — all delimiter
-    forms. -/
-theorem heredoc_prefix_incomplete (quoted tabs : Bool) (stop : Bytes) (s : PState)
+/-- The scanners alone: a body prefix without the stop line, scanned from a state with an open
+    bracket, is reported as an *incomplete* error — all delimiter forms. -/
+theorem scan_prefix_incomplete (quoted tabs : Bool) (stop : Bytes) (s : PState)
     (lines : List Bytes) (h : ∀ l ∈ lines, (if tabs then stripTabs l else l) ≠ stop)
     (hctx : s.openNodes > 0) :
     scan true quoted tabs stop s lines = .unclosedErr true := by
@@ -60,8 +60,18 @@ theorem heredoc_prefix_incomplete (quoted tabs : Bool) (stop : Bytes) (s : PStat
   · simp [scanUnquoted_unclosed tabs stop s lines [] h, hctx]
   · simp [scanQuoted_unclosed tabs stop s lines [] h, hctx]
 
-/-- A quoted body of which at least one line has been read is incomplete whoever the caller is
-    (the unterminated literal keeps `len(litBs) > 0`). -/
+/-- The property's demand on this mechanism, at full strength: every prefix of a here-document
+    body that does not contain the stop line is reported by doHeredocs as an *incomplete* error —
+    any delimiter quoting, with or without tab stripping, ANY caller state (inside a statement, or
+    the entry point after the last statement). -/
+theorem heredoc_prefix_incomplete (quoted tabs : Bool) (stop : Bytes) (s : PState)
+    (lines : List Bytes) (h : ∀ l ∈ lines, (if tabs then stripTabs l else l) ≠ stop) :
+    readBody quoted tabs stop s lines = .unclosedErr true := by
+  unfold readBody
+  exact scan_prefix_incomplete quoted tabs stop _ lines h (by simp)
+
+/-- A quoted body of which at least one line has been read is incomplete already by the
+    unterminated literal (`len(litBs) > 0`), whatever the brackets. -/
 theorem quoted_body_incomplete (tabs : Bool) (stop : Bytes) (s : PState) (l : Bytes)
     (lines : List Bytes) (h : ∀ x ∈ l :: lines, (if tabs then stripTabs x else x) ≠ stop) :
     scan true true tabs stop s (l :: lines) = .unclosedErr true := by
@@ -71,19 +81,17 @@ theorem quoted_body_incomplete (tabs : Bool) (stop : Bytes) (s : PState) (l : By
   simp [litBytes]
   omega
 
-/-- The same statement without the context hypothesis — what the property asks for. -/
-def heredoc_prefix_incomplete_statement : Prop :=
-  ∀ (quoted tabs : Bool) (stop : Bytes) (s : PState) (lines : List Bytes),
-    (∀ l ∈ lines, (if tabs then stripTabs l else l) ≠ stop) →
-    scan true quoted tabs stop s lines = .unclosedErr true
-
-/-- It is false: a body read by `Parse` itself at the end of the input (no bracket open, nothing
-    read) gives an error that is not incomplete. -/
-theorem heredoc_prefix_incomplete_fails : ¬ heredoc_prefix_incomplete_statement := by
-  intro h
-  have := h false false [69] (inBrackets .eof 0 0) [] (by simp)
-  revert this
+/-- Before a243c26 doHeredocs did not bracket itself: a body read by `Parse` itself at the end of
+    the input (no bracket open, nothing read) gave an error that was NOT incomplete — `cat <<E \`
+    NEWLINE, `cat <<E; [[ a ]]` NEWLINE (regression theorem about the bare scanners). -/
+theorem pinned_toplevel_heredoc_not_incomplete :
+    scan true false false [69] (inBrackets .eof 0 0) [] = .unclosedErr false := by
   decide
+
+/-- … and is incomplete now: the entry point's own call, nothing read, any delimiter form. -/
+theorem entry_point_heredoc_incomplete (quoted tabs : Bool) (stop : Bytes) :
+    readBody quoted tabs stop (inBrackets .eof 0 0) [] = .unclosedErr true :=
+  heredoc_prefix_incomplete quoted tabs stop _ [] (by simp)
 
 /-- A body containing its stop line closes, and the lines before it are the body. -/
 theorem heredoc_closes (quoted tabs : Bool) (stop : Bytes) (s : PState) (pre post : List Bytes)
@@ -116,11 +124,21 @@ theorem pinned_quoted_heredoc_not_incomplete :
     scan false true false [69, 79, 70] (inBrackets .newl 1 0) [[102, 111, 111]] = .unclosedErr false := by
   decide
 
-/-! ### which newline reads the bodies -/
+/-! ### which token reads the bodies -/
 
 theorem newline_fires_iff (s : LSt) : (step s .newl).fired = true ↔ (s.fired = true ∨ s.pending > s.buried) := by
   simp only [step, LSt.newlineFires]
   by_cases h : s.pending > s.buried <;> simp [h]
+
+/-- postNested right after a newline token that was lexed while the here-documents were buried
+    reads the bodies (`cat <<E; [[ a ]]` NEWLINE: testClause lexes the newline, then postNested). -/
+theorem leave_after_buried_newline_fires (s : LSt) (b : Nat) (r : List Nat)
+    (hs : s.saved = b :: r) (hp : s.pending > b) :
+    (step (step s .newl) .leave).fired = true := by
+  by_cases h : s.pending > s.buried
+  · simp [step, LSt.newlineFires, h, hs]
+    split <;> simp
+  · simp [step, LSt.newlineFires, h, hs, hp]
 
 /-- items that neither open nor close a preNested region nor end the line -/
 def flat : Item → Bool
@@ -160,52 +178,42 @@ theorem flat_tail_fires (pre post : List Item) (hp : post.all flat = true) :
   generalize post.foldl step (step s0 .hdoc) = s1 at hf
   simp [step, hf]
 
-/-- The cut right after the `<<` line, when that line's newline reads the bodies: incomplete for
-    every delimiter form and every number of body lines already present. -/
-theorem heredoc_cut_incomplete_partial (items : List Item) (quoted : Bool) (stop : Bytes)
-    (body : List Bytes) (hb : ∀ l ∈ body, l ≠ stop) (hf : lineFires items = true) :
+/-- The property's demand on this mechanism, at full strength (refuted by
+    `cat <<E; [[ a = b ]]` NEWLINE before a243c26): every cut after a line holding a `<<` whose
+    body has not ended — right after that line or after any number of further lines — is reported
+    as incomplete, for every shape of the line. -/
+theorem heredoc_cut_incomplete (items : List Item) (quoted : Bool) (stop : Bytes) (body : List Bytes)
+    (hb : ∀ l ∈ body, l ≠ stop) (hd : ∃ b, prefixFlag items quoted stop body = some b) :
     prefixFlag items quoted stop body = some true := by
-  unfold lineFires at hf
-  have h := heredoc_prefix_incomplete quoted false stop (inBrackets .newl 1 0) body
-    (by simpa using hb) (by simp [inBrackets])
-  simp [prefixFlag, hf, h]
+  have key : ∀ (s : PState) (ls : List Bytes), (∀ l ∈ ls, l ≠ stop) →
+      readBody quoted false stop s ls = .unclosedErr true :=
+    fun s ls h => heredoc_prefix_incomplete quoted false stop s ls (by simpa using h)
+  obtain ⟨b0, hd⟩ := hd
+  unfold prefixFlag at hd ⊢
+  by_cases hf : (runLine items).fired = true
+  · simp [hf, key _ body hb]
+  · by_cases hp : (runLine items).pending = 0
+    · simp [hf, hp] at hd
+    · cases body with
+      | nil => simp [hf, hp, key _ [] (by simp)]
+      | cons l rest =>
+        have hr : ∀ x ∈ rest, x ≠ stop := fun x hx => hb x (by simp [hx])
+        simp [hf, hp, key _ rest hr]
 
-/-- When it does not, a cut after at least one further line is still incomplete (that line's own
-    newline reads the bodies, from inside its statement). -/
-theorem heredoc_cut_deferred_body (items : List Item) (quoted : Bool) (stop : Bytes)
-    (l : Bytes) (rest : List Bytes) (hb : ∀ x ∈ rest, x ≠ stop)
-    (hf : lineFires items = false) (hp : (runLine items).pending ≠ 0) :
-    prefixFlag items quoted stop (l :: rest) = some true := by
-  unfold lineFires at hf
-  have h := heredoc_prefix_incomplete quoted false stop (inBrackets .newl 1 0) rest
-    (by simpa using hb) (by simp [inBrackets])
-  simp [prefixFlag, hf, hp, h]
-
-/-- The property's own demand on this mechanism: every cut after a line holding a `<<` whose
-    body has not ended is reported as incomplete. -/
-def heredoc_cut_incomplete_statement : Prop :=
-  ∀ (items : List Item) (quoted : Bool) (stop : Bytes) (body : List Bytes),
-    (∀ l ∈ body, l ≠ stop) → (∃ b, prefixFlag items quoted stop body = some b) →
-    prefixFlag items quoted stop body = some true
-
-/-- It is false of the model (and of the code, see the harness's `sched` tie and corpus/C10-known.txt):
-    `cat <<E; [[ a = b ]]` + newline + EOF.  The newline token is lexed by `gotRsrv("]]")` before
-    `postNested` un-buries the pending here-document; `Parse` then reads the body itself. -/
-theorem buried_newline_not_incomplete :
-    prefixFlag [.tok, .hdoc, .tok, .enter, .tok, .tok, .tok, .tok, .newl, .leave] false [69] [] = some false := by
+/-- `cat <<E; [[ a = b ]]` + newline + EOF: the newline token is lexed by `gotRsrv("]]")` while the
+    here-document is buried; the postNested that follows reads the body — incomplete (it was a hard
+    error before a243c26: finding C10-heredoc-buried-newline, fixed). -/
+theorem buried_newline_incomplete :
+    lineFires [.tok, .hdoc, .tok, .enter, .tok, .tok, .tok, .tok, .newl, .leave] = true
+    ∧ prefixFlag [.tok, .hdoc, .tok, .enter, .tok, .tok, .tok, .tok, .newl, .leave] false [69] [] = some true := by
   decide
 
-theorem heredoc_cut_incomplete_fails : ¬ heredoc_cut_incomplete_statement := by
-  intro h
-  have := h [.tok, .hdoc, .tok, .enter, .tok, .tok, .tok, .tok, .newl, .leave] false [69] [] (by simp)
-    ⟨false, by decide⟩
-  revert this
-  decide
-
-/-- non-vacuity: the ordinary `cat <<E` + newline, cut before the body, and `<<-'E'` with a body -/
+/-- non-vacuity: the ordinary `cat <<E` + newline, cut before the body; `<<-'E'` with a body; a
+    line with a pending here-document whose buried newline is not followed by postNested -/
 example : prefixFlag [.tok, .hdoc, .newl] false [69] [] = some true := by decide
 example : prefixFlag [.tok, .hdoc, .tok, .enter, .tok, .leave, .newl] true [69] [[9, 120]] = some true := by decide
-example : scan true true true [69] (inBrackets .newl 1 0) [[9, 120], [9, 9, 121]] = .unclosedErr true := by decide
+example : prefixFlag [.tok, .hdoc, .tok, .enter, .tok, .newl] false [69] [] = some true := by decide
+example : readBody true true [69] (inBrackets .newl 1 0) [[9, 120], [9, 9, 121]] = .unclosedErr true := by decide
 
 /-! ### error_sites: where error positions come from (regenerated table) -/
 
